@@ -98,8 +98,9 @@ class Report:
                       signature=signature)
         blob = json.dumps(replay, sort_keys=True, default=repr)
         h = hashlib.sha1(blob.encode()).hexdigest()[:10]
-        os.makedirs(os.path.join(ROOT, 'replays'), exist_ok=True)
-        path = os.path.join(ROOT, 'replays', '%s-%s.json' % (self.pid, h))
+        rdir = os.environ.get('VMC_REPLAY_DIR') or os.path.join(ROOT, 'replays')
+        os.makedirs(rdir, exist_ok=True)
+        path = os.path.join(rdir, '%s-%s.json' % (self.pid, h))
         with open(path, 'w') as f:
             f.write(json.dumps(replay, indent=1, sort_keys=True, default=repr))
         self.violations.append((msg, path))
@@ -129,7 +130,9 @@ class Report:
         if os.environ.get('VMC_NO_EVIDENCE'):
             # trial runs against a mutated scratch copy (tools/try_mutant.sh)
             # must not overwrite the evidence of the real tree
-            path = os.path.join(ROOT, 'replays', 'trial-%s.json' % self.pid)
+            path = os.path.join(
+                os.environ.get('VMC_REPLAY_DIR') or
+                os.path.join(ROOT, 'replays'), 'trial-%s.json' % self.pid)
             os.makedirs(os.path.dirname(path), exist_ok=True)
         tmp = path + '.tmp'
         with open(tmp, 'w') as f:
